@@ -35,6 +35,33 @@ def wkey(w):
     return '%s:%s:%s' % (w.func.qual, w.kind + (':' + w.via if w.via else ''), norm(w.stmt)[:100])
 
 
+def effective_funcs(repo, f, _seen=None):
+    """A function that did not exist on the pinned tree stands for its (transitive) callers: the rules' tables of who may
+    write / call are about the pinned tree's functions, a freshly extracted helper inherits its callers' rights."""
+    from ..sim import is_new_function
+    if not is_new_function(f):
+        return [f]
+    _seen = _seen or set()
+    if f in _seen:
+        return []
+    _seen.add(f)
+    cg = repo.callgraph()
+    out = []
+    for g, s in cg.callers_of(f):
+        for x in effective_funcs(repo, g, _seen):
+            if x not in out:
+                out.append(x)
+    if not out:
+        # also count syntactic callers in not-yet-reachable code
+        for g, sites in cg.sites.items():
+            for s in sites:
+                if f in s.targets:
+                    for x in effective_funcs(repo, g, _seen):
+                        if x not in out:
+                            out.append(x)
+    return out or [f]
+
+
 def check_writers(ctx, rule, owner, attr, allowed, floor=None, what=None, non_fresh_only=False):
     """Every write to owner.attr anywhere in production code must be one of `allowed`:
     list of (function short name, predicate(Write) or None).  Returns the writes."""
@@ -44,11 +71,14 @@ def check_writers(ctx, rule, owner, attr, allowed, floor=None, what=None, non_fr
     for w in ws:
         if non_fresh_only and w.fresh:
             continue
-        good = False
-        for fname, pred in allowed:
-            if (w.func.short == fname or w.func.qual.endswith('.' + fname)) and (pred is None or pred(w)):
-                good = True
-                break
+        good = True
+        for wf in effective_funcs(ctx.repo, w.func):
+            ok_ = False
+            for fname, pred in allowed:
+                if (wf.short == fname or wf.qual.endswith('.' + fname)) and (pred is None or pred(w)):
+                    ok_ = True
+                    break
+            good = good and ok_
         n += 1
         ctx.check(good, rule, 'writer:%s.%s:%s' % (owner.split('.')[-1], attr, wkey(w)), w.loc(),
                   'allowed writer of %s.%s' % (owner.split('.')[-1], attr),
@@ -90,7 +120,8 @@ def check_callers(ctx, rule, name, allowed, floor=None):
     of the allowed functions (short names)."""
     sites = named_call_sites(ctx.repo, name)
     for f, n in sites:
-        ctx.check(f.short in allowed or f.qual in allowed, rule, 'caller:%s:%s' % (name, f.qual), f.loc(n),
+        effs = effective_funcs(ctx.repo, f)
+        ctx.check(all(g.short in allowed or g.qual in allowed for g in effs), rule, 'caller:%s:%s' % (name, f.qual), f.loc(n),
                   '%s() called from an allowed site' % name,
                   '%s() is called from %s - allowed callers are %s' % (name, f.short, sorted(allowed)), stmt=norm(n)[:120])
     if floor is not None:
